@@ -23,6 +23,14 @@ DET = {
  'C17-1': ('C17', 'copy_true_argument_untouched on threshold_proportional'), 'C17-2': ('C17', 'normalize obligations'),
  'C18-1': (None, 'property C18 is not claimed (LAPACK)'), 'C18-2': (None, 'property C18 is not claimed (LAPACK)'),
  'C19-1': ('C19', 'marks_exactly_suprathreshold_edges / null / pvalue on the 2+3 stack (unequal group sizes)'), 'C19-2': ('C19', 'pvalue_is_fraction_of_null_at_least_component_size#2 on the 5-node stack (two components of different sizes)'),
+ 'C01-3': ('C01', 'ret:degree on randomizer_bin_und/n5/hub0 (check extended after this seed was first missed: hub + one connection on 5 nodes, hub/co-hub on 6)'),
+ 'C02-3': ('C02', 'q_equals_definition on modularity_finetune_und/u3/start111'), 'C03-3': ('C03', 'lambda_is_mean_distance / efficiency_is_mean_inverse_distance on charpath with unreachable pairs'),
+ 'C04-3': ('C04', 'node_vector_permuted on kcoreness_centrality_bu n=4'), 'C06-3': ('C06', 'signed degrees / weight multiset on null_model_dir_sign with wei_freq=1'),
+ 'C08-3': ('C08', 'edge_betweenness_bin on the 5-node families (check extended after this seed was first missed: all 5-node undirected graphs and a 5-node digraph family)'),
+ 'C10-3': ('C10', 'edge_betweenness_wei = edge_betweenness_bin on 6-node 0/1 families'), 'C12-3': ('C12', 'path_ends_at_target on retrieve_shortest_path n4dir'),
+ 'C13-3': ('C13', 'argfalff:cell_unchanged on pagerank_centrality (check extended after this seed was first missed: pagerank with a solve stub, asarray aliasing modelled)'),
+ 'C14-3': ('C14', 'same_result_for_renamed_labels on participation_coef'), 'C15-3': ('C15', 'coreness_is_largest_k_whose_core_contains_node on kcoreness_centrality_bu/n3'),
+ 'C17-3': ('C17', 'keeps_exactly_offdiag_entries_not_below_thr on threshold_absolute'), 'C20-3': ('C20', 'empty_diagonal on makeevenCIJ/n4/sz1'),
  'C20-1': ('C20', 'in/out_degree on makerandCIJdegreesfixed/211/121'), 'C20-2': ('C20', 'nearer_band_full_before_farther_used on makeringlatticeCIJ n=5'),
 }
 for d in sorted(glob.glob(os.path.join(V, 'seeded', '*'))):
